@@ -142,8 +142,13 @@ def gen(rng, tier, n):
             body = term.strip("'!^$")
         else:
             body = rbody(rng)
+            if rng.random() < 0.12:      # a blank at an edge of the body (typed as an escaped blank, see kind w)
+                body = rng.choice([" " + body, body + " ", " " + body + " "])
             term = rng.choice(OPS_PRE) + body + rng.choice(OPS_POST)
-        yield line("t", exact, cm, algo, term, texts_for(rng, body, term))
+        # kind w: the same term as it is TYPED inside a query (blanks escaped), through the and/or splitter on top of the term factory;
+        # valid when the splitter leaves exactly this one term: no bar at either end (bars there are stray bars, C04)
+        kind = "w" if rng.random() < 0.2 and term and not (term[0] == "|" or term[-1] == "|") else "t"
+        yield line(kind, exact, cm, algo, term, texts_for(rng, body, term))
 
 
 def fields(case):
@@ -159,7 +164,7 @@ def histogram_keys(case):
     f = fields(case)
     term = dec(f[4])
     ks = ["kind=" + f[0], "exact=" + f[1], "case=" + f[2], "algo=" + f[3]]
-    if f[0] == "t":
+    if f[0] in ("t", "w"):
         i = 0
         while i < len(term) and term[i] in "'!^":
             i += 1
@@ -198,7 +203,7 @@ def classify(r):
     f = fields(r["case"])
     # specific signature: V1 algorithm, and the implementation's verdicts equal the spec's verdicts with the case
     # option forced to `ignore` (computed by the driver) while differing from the spec's verdicts for the real option
-    if f[0] == "t" and f[3] == "1" and r["verdict"] == "bad:v1-ignores-case":
+    if f[0] in ("t", "w") and f[3] == "1" and r["verdict"] == "bad:v1-ignores-case":
         return "C03-skimv1-ignores-case"
     return None
 
@@ -224,6 +229,8 @@ def cli_item(case):
     the term as something else than one term"""
     f = fields(case)
     term, texts = dec(f[4]), [dec(t) for t in f[5].split(",")]
+    if f[0] == "w":
+        return None
     if f[0] == "t" and (not term.strip() or any(c in term for c in " |\0") or term != term.strip()):
         return None
     return (case, f[0] == "r", f[1] == "1", f[2], f[3], term, texts)
